@@ -17,41 +17,56 @@ FNAMES = ["x", "y", "z", "w", "r#type", "r#fn"]
 
 
 class Shape:
-    """A struct: tuple or named, n fields, optionally generic over the field type."""
+    """A struct: tuple or named, n fields, optionally generic over the field type(s).  `hetero` alternates two operand
+    types (Tag, Tag2 / T, U) so that the fields are of differing types."""
 
-    def __init__(self, named, n, generic, raw=False):
-        self.named, self.n, self.generic = named, n, generic
-        self.fnames = (["r#type", "r#fn", "r#loop", "r#match"][:n] if raw else FNAMES[:n]) if named else [str(i) for i in range(n)]
+    def __init__(self, named, n, generic, raw=False, hetero=False):
+        self.named, self.n, self.generic, self.hetero = named, n, generic, hetero
+        names = FNAMES + ["f%d" % i for i in range(6, 16)]
+        self.fnames = (["r#type", "r#fn", "r#loop", "r#match"][:n] if raw else names[:n]) if named else [str(i) for i in range(n)]
+        self.second = [hetero and i % 2 == 1 for i in range(n)]
+        self.two = hetero and n > 1
+
+    def fty(self, i):
+        if self.generic:
+            return "U" if self.second[i] else "T"
+        return "Tag2" if self.second[i] else "Tag"
+
+    def pf(self, i):
+        """operator-name prefix of field i's operand type"""
+        return "t2." if self.second[i] else ""
+
+    def lit(self, i, v):
+        return "%s(%d)" % ("Tag2" if self.second[i] else "Tag", v)
 
     def decl(self, name, derives, attrs=""):
-        g = "<T>" if self.generic else ""
-        ty = "T" if self.generic else "Tag"
+        g = ("<T, U>" if self.two else "<T>") if self.generic else ""
         if self.named:
-            body = " { %s }" % ", ".join("%s: %s" % (f, ty) for f in self.fnames)
+            body = " { %s }" % ", ".join("%s: %s" % (f, self.fty(i)) for i, f in enumerate(self.fnames))
         else:
-            body = "(%s);" % ", ".join([ty] * self.n)
+            body = "(%s);" % ", ".join(self.fty(i) for i in range(self.n))
         return "#[derive(%s)]\n%s\npub struct %s%s%s" % (", ".join("derive_more::" + d for d in derives), attrs, name, g, body)
 
     def ty(self, name):
-        return name + ("<Tag>" if self.generic else "")
+        return name + (("<Tag, Tag2>" if self.two else "<Tag>") if self.generic else "")
 
     def make(self, name, vals):
         if self.named:
-            return "%s { %s }" % (name, ", ".join("%s: Tag(%d)" % (f, v) for f, v in zip(self.fnames, vals)))
-        return "%s(%s)" % (name, ", ".join("Tag(%d)" % v for v in vals))
+            return "%s { %s }" % (name, ", ".join("%s: %s" % (f, self.lit(i, v)) for i, (f, v) in enumerate(zip(self.fnames, vals))))
+        return "%s(%s)" % (name, ", ".join(self.lit(i, v) for i, v in enumerate(vals)))
 
     def fields(self, var):
         return "vec![%s]" % ", ".join("%s.%s.0" % (var, f) for f in self.fnames)
 
     def key(self):
-        return ("named" if self.named else "tuple", self.n, "generic" if self.generic else "concrete")
+        return ("named" if self.named else "tuple", self.n, "generic" if self.generic else "concrete") + (("hetero",) if self.hetero else ())
 
 
 def sorted_ops():
     return "{ let mut v: Vec<String> = take_ops().split(';').filter(|s| !s.is_empty()).map(|s| s.to_string()).collect(); v.sort(); v.join(\";\") }"
 
 
-def struct_case(cid, sh, rng):
+def struct_case(cid, sh, rng, maxlen=3):
     n = sh.n
     la = [rng.randrange(1, 1000) for _ in range(n)]
     lb = [rng.randrange(1000, 2000) for _ in range(n)]
@@ -69,9 +84,9 @@ def struct_case(cid, sh, rng):
         tag = opname + ("_scalar" if scalar else "")
         body.append("{ let a: %s = %s; let b = %s; let _ = take_ops();" % (sh.ty(T), sh.make(T, la), rhs_expr))
         body.append("  let r = a %s b; let ops = %s;" % (sym, sorted_ops()))
-        want = "vec![%s]" % ", ".join("mix(\"%s\", %d, %d)" % (tag, l, r) for l, r in zip(la, rhs_vals))
+        want = "vec![%s]" % ", ".join("mix(\"%s%s\", %d, %d)" % (sh.pf(i), tag, l, r) for i, (l, r) in enumerate(zip(la, rhs_vals)))
         body.append("  cmp(\"%s.%s.result\", &format!(\"{:?}\", %s), &format!(\"{:?}\", %s));" % (T, tag, sh.fields("r"), want))
-        wops = sorted("%s(%d,%d)" % (tag, l, r) for l, r in zip(la, rhs_vals))
+        wops = sorted("%s%s(%d,%d)" % (sh.pf(i), tag, l, r) for i, (l, r) in enumerate(zip(la, rhs_vals)))
         body.append("  cmp(\"%s.%s.ops\", &ops, %s); }" % (T, tag, common.rs_str(";".join(wops))))
         nexp += 2
 
@@ -80,9 +95,9 @@ def struct_case(cid, sh, rng):
         tag = opname + ("_scalar" if scalar else "")
         body.append("{ let mut a: %s = %s; let b = %s; let _ = take_ops();" % (sh.ty(T), sh.make(T, la), rhs_expr))
         body.append("  a %s b; let ops = %s;" % (sym, sorted_ops()))
-        want = "vec![%s]" % ", ".join("mix(\"%s\", %d, %d)" % (tag, l, r) for l, r in zip(la, rhs_vals))
+        want = "vec![%s]" % ", ".join("mix(\"%s%s\", %d, %d)" % (sh.pf(i), tag, l, r) for i, (l, r) in enumerate(zip(la, rhs_vals)))
         body.append("  cmp(\"%s.%s_assign.result\", &format!(\"{:?}\", %s), &format!(\"{:?}\", %s));" % (T, tag, sh.fields("a"), want))
-        wops = sorted("%s_assign%s(%d,%d)" % (opname, "_scalar" if scalar else "", l, r) for l, r in zip(la, rhs_vals))
+        wops = sorted("%s%s_assign%s(%d,%d)" % (sh.pf(i), opname, "_scalar" if scalar else "", l, r) for i, (l, r) in enumerate(zip(la, rhs_vals)))
         body.append("  cmp(\"%s.%s_assign.ops\", &ops, %s); }" % (T, tag, common.rs_str(";".join(wops))))
         nexp += 2
 
@@ -98,13 +113,38 @@ def struct_case(cid, sh, rng):
         assignop("F", sym, m, sh.make("F", lb), lb, False)
     for d, m, sym in UNARY:
         body.append("{ let a: %s = %s; let _ = take_ops(); let r = %sa; let ops = %s;" % (sh.ty("P"), sh.make("P", la), sym, sorted_ops()))
-        want = "vec![%s]" % ", ".join("mix(\"%s\", %d, 0)" % (m, l) for l in la)
+        want = "vec![%s]" % ", ".join("mix(\"%s%s\", %d, 0)" % (sh.pf(i), m, l) for i, l in enumerate(la))
         body.append("  cmp(\"P.%s.result\", &format!(\"{:?}\", %s), &format!(\"{:?}\", %s));" % (m, sh.fields("r"), want))
-        body.append("  cmp(\"P.%s.ops\", &ops, %s); }" % (m, common.rs_str(";".join(sorted("%s(%d)" % (m, l) for l in la)))))
+        body.append("  cmp(\"P.%s.ops\", &ops, %s); }" % (m, common.rs_str(";".join(sorted("%s%s(%d)" % (sh.pf(i), m, l) for i, l in enumerate(la))))))
         nexp += 2
+    # multi-step sequences: the value produced by one derived operator is the operand of the next one
+    # (a += b; c = a - c0; d = -c; d *= s; e = !d; e ^= b; ...), compared with the nested field-wise reference
+    for rep in range(2):
+        steps = []
+        exprs = [str(v) for v in la]
+        body.append("{ let mut a: %s = %s; let _ = take_ops();" % (sh.ty("P"), sh.make("P", la)))
+        for st in range(rng.randrange(3, 7)):
+            kind = rng.choice(("bin", "assign", "scalar", "scalar_assign", "unary"))
+            if kind in ("bin", "assign"):
+                d, m, sym = rng.choice(ADD_LIKE if kind == "bin" else ADD_ASSIGN)
+                vals = [rng.randrange(4000, 5000) for _ in range(n)]
+                body.append("  a = a %s %s;" % (sym, sh.make("P", vals)) if kind == "bin" else "  a %s %s;" % (sym, sh.make("P", vals)))
+                exprs = ["mix(\"%s%s\", %s, %d)" % (sh.pf(i), m, exprs[i], vals[i]) for i in range(n)]
+            elif kind in ("scalar", "scalar_assign"):
+                d, m, sym = rng.choice(MUL_LIKE if kind == "scalar" else MUL_ASSIGN)
+                v = rng.randrange(5000, 6000)
+                body.append("  a = a %s Scalar(%d);" % (sym, v) if kind == "scalar" else "  a %s Scalar(%d);" % (sym, v))
+                exprs = ["mix(\"%s%s_scalar\", %s, %d)" % (sh.pf(i), m, exprs[i], v) for i in range(n)]
+            else:
+                d, m, sym = rng.choice(UNARY)
+                body.append("  a = %sa;" % sym)
+                exprs = ["mix(\"%s%s\", %s, 0)" % (sh.pf(i), m, exprs[i]) for i in range(n)]
+            steps.append(kind)
+        body.append("  let _ = take_ops(); cmp(\"P.seq%d.result\", &format!(\"{:?}\", %s), &format!(\"{:?}\", vec![%s])); }" % (rep, sh.fields("a"), ", ".join(exprs)))
+        nexp += 1
     # Sum / Product: fold from the field-wise empty sum/product
     for T, tr, m, zero in (("P", "sum", "add", "SUM_ZERO"), ("F", "product", "mul", "PRODUCT_ONE")):
-        for k in range(0, 4):
+        for k in range(0, maxlen + 1):
             rows = [[rng.randrange(3000 + 100 * j, 3100 + 100 * j) for _ in range(n)] for j in range(k)]
             vec = "vec![%s]" % ", ".join(sh.make(T, r) for r in rows) if rows else "Vec::<%s>::new()" % sh.ty(T)
             body.append("{ let v: Vec<%s> = %s; let r: %s = v.into_iter().%s();" % (sh.ty(T), vec, sh.ty(T), tr))
@@ -112,7 +152,7 @@ def struct_case(cid, sh, rng):
             for i in range(n):
                 e = zero
                 for r in rows:
-                    e = "mix(\"%s\", %s, %d)" % (m, e, r[i])
+                    e = "mix(\"%s%s\", %s, %d)" % (sh.pf(i), m, e, r[i])
                 wants.append(e)
             body.append("  cmp(\"%s.%s%d\", &format!(\"{:?}\", %s), &format!(\"{:?}\", vec![%s])); }" % (T, tr, k, sh.fields("r"), ", ".join(wants)))
             nexp += 1
@@ -248,11 +288,14 @@ def run(ctx):
     cases = []
     shapes = [Shape(named, n, generic) for named in (False, True) for n in (1, 2, 3, 4) for generic in (False, True)]
     shapes += [Shape(True, n, g, raw=True) for n in (1, 3) for g in (False, True)]
+    # fields of differing types (two operand types / two type parameters), and wide structs
+    shapes += [Shape(named, n, generic, hetero=True) for named in (False, True) for n in (2, 3, 5) for generic in (False, True)]
+    shapes += [Shape(named, n, False) for named in (False, True) for n in (6, 9, 13)]
     reps = ctx.pick(3, 40)
     k = 0
     for rep in range(reps):
         for sh in shapes:
-            cases.append(struct_case("s%d" % k, sh, rng))
+            cases.append(struct_case("s%d" % k, sh, rng, maxlen=ctx.pick(3, 6)))
             k += 1
     for i in range(ctx.pick(160, 2400)):
         cases.append(enum_case("e%d" % i, rng, generic=(i % 3 == 0)))
@@ -263,8 +306,8 @@ def run(ctx):
                 for generic in (False, True):
                     cases.append(handwritten_ops_case("h%d" % hk, rng, n, named, generic))
                     hk += 1
-    ctx.rule = ("types: tuple/named structs with 1-4 Tag fields (concrete and generic, raw-identifier names), enums with 1-4 variants drawn from tuple(0-3)/named(0-2)/unit; "
-                "all 24 operator derives, scalar and forward Mul-likes, every ordered pair of variants, iterators of length 0-3; Sum/Product also next to hand-written Add/Mul impls of the type; "
+    ctx.rule = ("types: tuple/named structs with 1-4 Tag fields (concrete and generic, raw-identifier names), with 2-5 fields alternating two operand types (Tag, Tag2 / two type parameters) and with 6-13 fields; chains of 3-6 derived operators where each result is the next operand; enums with 1-4 variants drawn from tuple(0-3)/named(0-2)/unit; "
+                "all 24 operator derives, scalar and forward Mul-likes, every ordered pair of variants, iterators of length 0-3 (0-6 thorough); Sum/Product also next to hand-written Add/Mul impls of the type; "
                 "distinct = distinct (kind, field layout, arity, genericity, variant-kind set) tuples; every case applies several operators so none is trivial")
     ctx.assumptions += ["rt::Tag implements every operator with a non-commutative mix and logs each call"]
     res = l2.build_and_run(ctx, "ops", cases)
